@@ -59,6 +59,10 @@ def main(argv):
                 meta['demo_on_unmodified_tree'] = {'exit': rc0, 'ok': rc0 == 0}
             ap = sh(['git', '-C', repo, 'apply', os.path.join(d, 'patch.diff')])
             if ap.returncode != 0:
+                # the patch was written against an earlier /repo HEAD: fall back to a 3-way merge
+                ap = sh(['git', '-C', repo, 'apply', '--3way', os.path.join(d, 'patch.diff')])
+                meta['applied_with_3way'] = ap.returncode == 0
+            if ap.returncode != 0:
                 meta['patch_applies'] = False
                 meta['apply_error'] = ap.stderr[-300:]
                 print(sid, 'PATCH DOES NOT APPLY', ap.stderr[-200:])
